@@ -13,8 +13,8 @@ RULE = (
     "non-trivial = every case; distinct = (block, width, flags, vector seed / chunk)"
 )
 BUDGET = {
-    "quick": {"workers": 16, "cases": 60, "secs": 45, "min_cases": 500},
-    "thorough": {"workers": 16, "rounds": 4, "cases": 200, "secs": 240, "min_cases": 5000},
+    "quick": {"workers": 16, "cases": 240, "secs": 60, "min_cases": 1920},
+    "thorough": {"workers": 16, "rounds": 4, "cases": 700, "secs": 420, "min_cases": 22400},
 }
 ANCHORS = ["logic:adder", "logic:mux", "logic:popcount", "logic:half_adder", "logic:full_adder", "utils:clog2", "utils:int_to_bin", "utils:bin_to_int"]
 
@@ -36,7 +36,7 @@ def gen(rng, ctx):
     if blk == "mux" and w > 65:
         case["w"] = rng.choice([w for w in ws if w <= 65])
     if blk == "clog2":
-        case["lo"] = rng.choice([1, 1, rng.randint(1, 1 << 16), (1 << rng.randint(1, 70)) - 3])
+        case["lo"] = rng.choice([1, 1, rng.randint(1, 1 << 16), (1 << rng.randint(2, 70)) - 3])
     if blk == "bin":
         case["w"] = rng.randint(0, 12)
         case["lend"] = rng.random() < 0.5
